@@ -30,7 +30,7 @@ def run(ctx):
         outside='DNS names/rdata longer than the bound; DHCP whole-message round trip (to_message/from_bytes through Message + UTF-8 validation '
                 'did not finish in CBMC within 25 min at 32 bytes - only the message-type mapping and the C14 no-panic harness are decided); '
                 'checksum field content in the default build is 0 by construction (full checksum equality is C18)',
-        jobs=8, timeout=1700 if ctx.quick else 3400)
+        jobs=8, timeout=3000 if ctx.quick else 5000)
 
 
 MANIFEST = {
